@@ -743,3 +743,56 @@ def rule_e5(repo, res):
                             "treats every token-carrying ParseError as a missing value, so this ill-formed text is "
                             "accepted and the statement replaced by an empty value under a bogus name",
                             where=f"pvl/parser.py:{r.lineno}"))
+
+
+def rule_e7(repo, res):
+    """E7: the placeholder object carries its own line number: EmptyValueAtLine's constructor stores its *lineno*
+    argument in the ``lineno`` attribute of the instance it makes -- unconditionally, on the instance (a store on the
+    class would be shared by every placeholder of every load) -- and returns that instance."""
+    from . import flow
+    if "EmptyValueAtLine" not in repo.classes:
+        raise AnalysisError("anchor vanished: parser.EmptyValueAtLine")
+    stores = []      # (method, statement, unconditional?)
+    cls_stores = []
+    for cname in repo.mro("EmptyValueAtLine"):
+        if cname.startswith("ext:"):
+            continue
+        ci = repo.classes[cname]
+        for mname in ("__new__", "__init__"):
+            fn0 = ci.methods.get(mname)
+            if fn0 is None:
+                continue
+            fn = fn0
+            params = [a.arg for a in fn.args.posonlyargs + fn.args.args]
+            if len(params) < 2:
+                continue
+            first, arg = params[0], params[1]
+            inst = {first} if mname == "__init__" else set()
+            if mname == "__new__":
+                rets = [n for n in ast.walk(fn) if isinstance(n, ast.Return)]
+                for st in ast.walk(fn):
+                    if isinstance(st, ast.Assign) and len(st.targets) == 1 and isinstance(st.targets[0], ast.Name) \
+                            and isinstance(st.value, ast.Call) and norm(st.value.func).endswith("__new__"):
+                        if all(isinstance(r.value, ast.Name) and r.value.id == st.targets[0].id for r in rets) and rets:
+                            inst.add(st.targets[0].id)
+            for st, conds in flow.stmts_with_conds(fn.body):
+                if isinstance(st, ast.Assign):
+                    for t in st.targets:
+                        if isinstance(t, ast.Attribute) and t.attr == "lineno" and isinstance(t.value, ast.Name):
+                            reads = any(isinstance(x, ast.Name) and x.id == arg for x in ast.walk(st.value))
+                            if t.value.id in inst and reads:
+                                stores.append((f"{cname}.{mname}", st, not conds))
+                            elif t.value.id not in inst:
+                                cls_stores.append((f"{cname}.{mname}", st))
+    ok = any(u for (_, _, u) in stores) and not cls_stores
+    res.oblige("E7", "EmptyValueAtLine stores its lineno argument in the lineno attribute of the instance it returns, on every path", ok=ok)
+    if not ok:
+        if cls_stores:
+            w, st = cls_stores[0]
+            res.add(Finding("E7", w, f"`{norm(st, 60)}` is not a store on the new instance",
+                            f"{w} assigns the line number with `{norm(st, 60)}`, which is not the instance the constructor "
+                            "returns: every placeholder reports the line of the most recent one", where=f"pvl/parser.py:{st.lineno}"))
+        else:
+            res.add(Finding("E7", "EmptyValueAtLine", "no unconditional store of lineno",
+                            "no constructor of EmptyValueAtLine stores its lineno argument in the instance's lineno attribute on "
+                            "every path: the placeholder cannot say where the value is missing"))
